@@ -13,7 +13,7 @@ Definition chv2_init (chords : list chordv2) (ignore : N) : chv2 :=
 
 Definition chv2_is_idle (c : chv2) : bool :=
   match cv_queue c, cv_active c with [], [] => true | _, _ => false end.
-Definition chv2_accepts (c : chv2) : bool := cv_ignore c =? 0.
+Definition chv2_accepts (c : chv2) : bool := (cv_ignore c =? 0) && (cv_until_change c =? 0).
 
 Definition set_cv_queue q c := mkchv2 (cv_chords c) q (cv_active c) (cv_ignore c) (cv_cfg_ignore c) (cv_until_change c) (cv_prev_layer c) (cv_prev_qlen c) (cv_next_coord c).
 Definition set_cv_active a c := mkchv2 (cv_chords c) (cv_queue c) a (cv_ignore c) (cv_cfg_ignore c) (cv_until_change c) (cv_prev_layer c) (cv_prev_qlen c) (cv_next_coord c).
